@@ -12,7 +12,9 @@ import (
 	"github.com/oasisprotocol/oasis-core/go/common/node"
 	"github.com/oasisprotocol/oasis-core/go/common/quantity"
 	"github.com/oasisprotocol/oasis-core/go/consensus/api/transaction"
+	"github.com/oasisprotocol/oasis-core/go/common/version"
 	governance "github.com/oasisprotocol/oasis-core/go/governance/api"
+	upgradeAPI "github.com/oasisprotocol/oasis-core/go/upgrade/api"
 	registry "github.com/oasisprotocol/oasis-core/go/registry/api"
 	staking "github.com/oasisprotocol/oasis-core/go/staking/api"
 )
@@ -144,6 +146,25 @@ func TxSubmitCancelUpgrade(nonce uint64, fee *transaction.Fee, proposalID uint64
 	return governance.NewSubmitProposalTx(nonce, fee, &governance.ProposalContent{
 		Metadata:      &governance.ProposalMetadata{Title: "verif cancel upgrade"},
 		CancelUpgrade: &governance.CancelUpgradeProposal{ProposalID: proposalID},
+	})
+}
+
+// UpgradeDescriptor is a valid upgrade descriptor for the running binary (dummy e2e handler).
+func UpgradeDescriptor(epoch uint64) upgradeAPI.Descriptor {
+	return upgradeAPI.Descriptor{
+		Versioned: cbor.NewVersioned(upgradeAPI.LatestDescriptorVersion),
+		Handler:   "__e2e-test-valid",
+		Target:    version.Versions,
+		Epoch:     beacon.EpochTime(epoch),
+	}
+}
+
+// TxSubmitUpgrade submits an upgrade proposal for the given epoch (must be at least
+// UpgradeMinEpochDiff epochs ahead).
+func TxSubmitUpgrade(nonce uint64, fee *transaction.Fee, epoch uint64) *transaction.Transaction {
+	return governance.NewSubmitProposalTx(nonce, fee, &governance.ProposalContent{
+		Metadata: &governance.ProposalMetadata{Title: "verif upgrade"},
+		Upgrade:  &governance.UpgradeProposal{Descriptor: UpgradeDescriptor(epoch)},
 	})
 }
 
